@@ -3,7 +3,8 @@ import Lz4V.Proofs.HC
 # C01 / C10 / C11 for the high-compression block compressor (`Model.HC.compressBlock`)
 
 * `c11_hc` — for *any* destination size and *any* search depth the call never panics (in particular
-  the chain walk never indexes out of range, so the `recoverBlock` path is dead); on success the `n`
+  the chain walk and the unmasked table indices `blockHashHC(x)`, `si&winMask` never go out of range
+  — `side_hash_in_range`, `side_win_le_ht` — so the `recoverBlock` path is dead); on success the `n`
   bytes written decode (under `Spec.Block.decode`, no dictionary, `maxOut = len(src)`) to `src` and
   are strictly valid (`Spec.Block.strictValid`: parses, offsets in range, last 5 bytes literals, last
   match starts ≥ 12 bytes before the end); `(0, nil)` / `(0, err)` are returned only when
@@ -12,6 +13,20 @@ import Lz4V.Proofs.HC
 -/
 namespace Lz4V.Props.C01hc
 open Lz4V Lz4V.Model.HC Lz4V.Model.Emit
+
+/-! ## Side conditions on the regenerated constants
+
+The model indexes `hashTable` with the unmasked `blockHashHC` value and `chainTable` with
+`si & winMask`, like the Go code; an out-of-range index is a (recovered) panic, i.e. `.err`.  The
+property rests on these two facts about the regenerated `Gen` definitions (e.g. `hashLog = 15`
+would falsify both). -/
+
+/-- `blockHashHC` (a 32-bit product shifted right by 16) is always a valid index into `hashTable [htSize]int` -/
+theorem side_hash_in_range (x : UInt32) : (Gen.blockHashHC x).toNat < Gen.htSize :=
+  Proofs.HC.hash_in_range x
+
+/-- `si & winMask < winSize ≤ htSize`: a valid index into `chainTable [htSize]int` -/
+theorem side_win_le_ht : Gen.winSize ≤ Gen.htSize := Proofs.HC.win_le_ht
 
 /-- C01/C10/C11 for the HC compressor: any destination size, any search depth -/
 theorem c11_hc (src dst : Array UInt8) (depth : Nat) :
@@ -71,5 +86,7 @@ example (src : Array UInt8) (depth : Nat) : ∀ n d, compressBlock src #[] depth
 
 end Lz4V.Props.C01hc
 
+#print axioms Lz4V.Props.C01hc.side_hash_in_range
+#print axioms Lz4V.Props.C01hc.side_win_le_ht
 #print axioms Lz4V.Props.C01hc.c11_hc
 #print axioms Lz4V.Props.C01hc.c01_hc
